@@ -36,7 +36,7 @@ vt_proof! { unwind = 20; fn c10_probe_key_ids_and_intervals() {
     kani::cover!(true, "w:reached_end");
 }}
 
-// @vt prop=C10 tier=quick bound="index probe key vs stored key: Point, Circle, Box with arbitrary f64 payloads" outside="Decimal (float division and 10^scale)" timeout=900
+// @vt prop=C10 tier=quick bound="index probe key vs stored key: Point, Circle, Box with arbitrary f64 payloads" outside="Decimal (float division and 10^scale)" timeout=1200 mem=24
 vt_proof! { unwind = 12; fn c10_probe_key_geometry() {
     agree(OwnedValue::Point(kani::any(), kani::any())); agree(OwnedValue::Circle((kani::any(), kani::any()), kani::any()));
     agree(OwnedValue::Box((kani::any(), kani::any()), (kani::any(), kani::any())));
